@@ -47,6 +47,23 @@ def voi_term(spec):
         sv_term(spec.get('equals')))
 
 
+def solve(M, rhs):
+    """exact solution of the square system M z = rhs over Fractions, None when singular"""
+    n = len(M)
+    aug = [list(M[i]) + [rhs[i]] for i in range(n)]
+    for col in range(n):
+        piv = next((i for i in range(col, n) if aug[i][col] != 0), None)
+        if piv is None:
+            return None
+        aug[col], aug[piv] = aug[piv], aug[col]
+        aug[col] = [v / aug[col][col] for v in aug[col]]
+        for i in range(n):
+            if i != col and aug[i][col] != 0:
+                f = aug[i][col]
+                aug[i] = [a - f * b for a, b in zip(aug[i], aug[col])]
+    return [aug[i][n] for i in range(n)]
+
+
 class C20(Spec):
     pid = 'C20'
     imports = ['C20.Model']
@@ -63,7 +80,9 @@ class C20(Spec):
             'indices, units, scaler/adder/ref/ref0 scalar and per element, bounds / equals: values, bounds and total '
             'jacobians through Driver.get_*_values, get_bounds_scaling, Problem.compute_totals and '
             'Driver._compute_totals, write-back through _set_design_vars; apply_mult_unscaling on given multipliers; '
-            'compute_lagrange_multipliers at a constructed KKT point under two scalings. A case is non-trivial when distinct.')
+            'compute_lagrange_multipliers and _get_active_cons_and_dvs at constructed KKT points (equality constraints; scaled design '
+            'variables exactly on their bounds with active inequality elements) under two or three scalings against the exact '
+            'rational multipliers and active sets. A case is non-trivial when distinct.')
     assumptions = ['unit factors are those of C06 (IEC prefixes exact)',
                    'the optimizer itself is not run; the driver API is exercised on a set-up problem']
 
@@ -228,8 +247,10 @@ class C20(Spec):
             c['con_mult'] = [self.dy(rng) for _ in range(mc)]
             c['kind'], c['cls'] = 'mult', 'apply_mult_unscaling'
             cases.append(c)
-        for _ in range(40 if tier == 'quick' else 400):
+        for _ in range(25 if tier == 'quick' else 400):
             cases.append(self.lagr_case(rng))
+        for _ in range(70 if tier == 'quick' else 700):
+            cases.append(self.kkt_case(rng))
         return cases
 
     def lagr_case(self, rng):
@@ -257,6 +278,78 @@ class C20(Spec):
                 obj = {'scaler': self.pow2(rng, neg=False)}
             obj['units'] = None
             c[key] = {'dv': dv, 'con': con, 'obj': obj}
+        return c
+
+    def kkt_case(self, rng):
+        """A constructed KKT point of  min c.x  s.t. active rows of y = A x + b, x on some of its bounds:
+        k >= 1 design variables sit exactly ON a (lower or upper) bound, r = n - k constraint elements are
+        active (equality, or an inequality on its bound), optionally one more inactive inequality element.
+        The active set is square and invertible, so the multipliers in model units are the unique exact
+        rational solution of  c + A_act^T lam_g + E^T lam_b = 0.  The same problem under 3 scalings."""
+        n = rng.choice([2, 2, 3])
+        k = rng.randint(1, n - 1)
+        r = n - k
+        bounded = sorted(rng.sample(range(n), k))
+        free = [j for j in range(n) if j not in bounded]
+        while True:
+            Aact = [[rng.randint(-3, 3) for _ in range(n)] for _ in range(r)]
+            M = [[Fraction(Aact[i][j]) for j in free] for i in range(r)]
+            if solve(M, [Fraction(0)] * r) is not None:
+                break
+        extra = rng.random() < 0.5
+        A = Aact + ([[rng.randint(-3, 3) for _ in range(n)]] if extra else [])
+        m = len(A)
+        x = [Fraction(rng.randint(-4, 4)) for _ in range(n)]
+        b = [Fraction(rng.randint(-4, 4)) for _ in range(m)]
+        y = [sum(A[i][j] * x[j] for j in range(n)) + b[i] for i in range(m)]
+        cvec = [Fraction(rng.choice([-3, -2, -1, 1, 2, 3])) for _ in range(n)]
+        # stationarity: for every design variable j:  c_j + sum_i lam_g,i A[i][j] + lam_b,j = 0
+        lam_g = solve([[Fraction(Aact[i][j]) for i in range(r)] for j in free], [-cvec[j] for j in free])
+        lam_b = {j: -cvec[j] - sum(lam_g[i] * Aact[i][j] for i in range(r)) for j in bounded}
+        # bounds of the design variable (driver units = model units here)
+        lower, upper = [], []
+        for j in range(n):
+            if j in bounded and rng.random() < 0.5:
+                lower.append(x[j]); upper.append(x[j] + rng.randint(3, 8))
+            elif j in bounded:
+                lower.append(x[j] - rng.randint(3, 8)); upper.append(x[j])
+            else:
+                lower.append(x[j] - rng.randint(3, 8)); upper.append(x[j] + rng.randint(3, 8))
+        equality = (not extra) and rng.random() < 0.5
+        if equality:
+            conb = {'equals': {'a': [Q(v) for v in y]}}
+        else:
+            lo, up = [], []
+            for i in range(m):
+                if i < r and rng.random() < 0.5:
+                    lo.append(y[i]); up.append(y[i] + rng.randint(3, 8))
+                elif i < r:
+                    lo.append(y[i] - rng.randint(3, 8)); up.append(y[i])
+                else:
+                    lo.append(y[i] - rng.randint(3, 8)); up.append(y[i] + rng.randint(3, 8))
+            conb = {'lower': {'a': [Q(v) for v in lo]}, 'upper': {'a': [Q(v) for v in up]}}
+        c = {'kind': 'kkt', 'cls': 'kkt-desvars-on-bounds(oracle only)', 'src_units': 'byte',
+             'A': [[Q(v) for v in row] for row in A], 'b': [Q(v) for v in b], 'x': [Q(v) for v in x],
+             'c': [Q(v) for v in cvec], 'd': Q(0), 'xnew': [Q(0)] * n,
+             'expect': {'dv_active': bounded, 'con_active': list(range(r)),
+                        'dv_mult': [Q(lam_b.get(j, 0)) for j in range(n)],
+                        'con_mult': [Q(lam_g[i]) if i < r else Q(0) for i in range(m)]},
+             'scalings': []}
+        for t in range(3):
+            if t == 0:
+                dv, con, obj = {}, {}, {}
+            else:
+                dv = self.scaling(rng, n)
+                while not any(k_ in dv for k_ in ('scaler', 'ref', 'ref0', 'adder')):
+                    dv = self.scaling(rng, n)            # the design variable is always scaled
+                con = self.scaling(rng, m)
+                obj = self.scaling(rng, 1)
+                if 'ref0' in obj or 'ref' in obj or 'adder' in obj:
+                    obj = {'scaler': self.pow2(rng)}
+            dv = dict(dv, lower={'a': [Q(v) for v in lower]}, upper={'a': [Q(v) for v in upper]}, units=None)
+            con = dict(con, units=None, **conb)
+            obj = dict(obj, units=None)
+            c['scalings'].append({'dv': dv, 'con': con, 'obj': obj})
         return c
 
     def search_gen(self, tier, rng):
